@@ -40,6 +40,7 @@ pub(crate) fn reset_state() {
         state.finalizing.set(false);
 
         state.dropping.set(false);
+        state.dropping_list.set(false);
         state.allocated_bytes.set(0);
         state.executions_counter.set(0);
     });
@@ -52,6 +53,10 @@ pub(crate) struct State {
     finalizing: Cell<bool>,
 
     dropping: Cell<bool>,
+
+    // true only while the collector is executing the destructors of the objects it's collecting
+    dropping_list: Cell<bool>,
+
     allocated_bytes: Cell<usize>,
     executions_counter: Cell<usize>,
 
@@ -68,6 +73,7 @@ impl State {
             finalizing: Cell::new(false),
 
             dropping: Cell::new(false),
+            dropping_list: Cell::new(false),
             allocated_bytes: Cell::new(0),
             executions_counter: Cell::new(0),
 
@@ -130,6 +136,17 @@ impl State {
     #[inline]
     pub(crate) fn set_dropping(&self, value: bool) {
         self.dropping.set(value);
+    }
+
+    #[cfg(feature = "weak-ptrs")]
+    #[inline]
+    pub(crate) fn is_dropping_list(&self) -> bool {
+        self.dropping_list.get()
+    }
+
+    #[inline]
+    pub(crate) fn set_dropping_list(&self, value: bool) {
+        self.dropping_list.set(value);
     }
 
     #[inline]
